@@ -8,7 +8,11 @@ package main
 // case : proto=<tcp|tls|gnet> max=<3|100> hold=<0|1> fr=<len>,... segs=<n>,...
 //        hold=1: the fake upstream answers nothing until the client has read every REFUSED it is due
 //                (exactly the first max queries are in flight; the surplus must be REFUSED, none dropped);
-//        hold=0: the upstream answers at once with id-dependent delays (out-of-order completion).
+//        hold=0: the upstream answers at once with id-dependent delays (out-of-order completion);
+//        hold=3 wave=<k1>: the first segment carries k1 queries, held (surplus REFUSED), then all complete,
+//                then one query per segment ping-pong: the in-flight counter must have returned to zero;
+//        hold=2: ping-pong, the client reads each response before it sends the next query (segments do not
+//                span frame boundaries): never more than one query in flight, so none may be REFUSED however many.
 // out  : w=<id><a|r|x>|bad,... (sorted) up=<ids that reached the upstream> closed=<server closed first>
 
 import (
@@ -43,27 +47,37 @@ func c13FreePort() int {
 }
 
 func c13TcpSetup() {
-	c13t.ports = map[string]int{}
-	var servers []router.ServerConfig
-	for _, proto := range []string{"tcp", "tls", "gnet"} {
-		for _, max := range []int{3, 100} {
-			p := c13FreePort()
-			c13t.ports[proto+strconv.Itoa(max)] = p
-			sc := router.ServerConfig{
-				Tag:      proto + strconv.Itoa(max),
-				Protocol: proto,
-				Listen:   "127.0.0.1:" + strconv.Itoa(p),
+	// the ports are picked by binding :0 and releasing; another process may grab one before the router
+	// binds it, so a failed start is retried with fresh ports
+	var err error
+	for try := 0; try < 8; try++ {
+		c13t.ports = map[string]int{}
+		var servers []router.ServerConfig
+		for _, proto := range []string{"tcp", "tls", "gnet"} {
+			for _, max := range []int{3, 100} {
+				p := c13FreePort()
+				c13t.ports[proto+strconv.Itoa(max)] = p
+				sc := router.ServerConfig{
+					Tag:      proto + strconv.Itoa(max),
+					Protocol: proto,
+					Listen:   "127.0.0.1:" + strconv.Itoa(p),
+				}
+				if max != 100 {
+					sc.Tcp.MaxConcurrentQueries = int32(max) // 100 = the default, left unset on purpose
+				}
+				if proto == "tls" {
+					sc.Tls.DebugUseTempCert = true
+				}
+				servers = append(servers, sc)
 			}
-			if max != 100 {
-				sc.Tcp.MaxConcurrentQueries = int32(max) // 100 = the default, left unset on purpose
-			}
-			if proto == "tls" {
-				sc.Tls.DebugUseTempCert = true
-			}
-			servers = append(servers, sc)
 		}
+		c13t.vr, c13t.up, err = c13TryStartRouter(servers)
+		if err == nil {
+			return
+		}
+		time.Sleep(50 * time.Millisecond)
 	}
-	c13t.vr, c13t.up = c13StartRouter(servers)
+	panic(err)
 }
 
 func c13TcpTeardown() {
@@ -123,9 +137,26 @@ func c13WaitFor(d time.Duration, cond func() bool) bool {
 	return true
 }
 
+// c13TcpRun: real-time steps get a retry (a loaded machine may reorder a handler's bookkeeping and the
+// client's next query in ping-pong mode, or make a wait expire); a genuinely wrong outcome repeats.
 func c13TcpRun(cs string) string {
+	res := c13TcpOnce(cs, 0)
+	for try := 1; try <= 2 && (strings.Contains(res, "stall=1") || (kv(cs)["hold"] == "2" && strings.Contains(res, "r"))); try++ {
+		time.Sleep(20 * time.Millisecond)
+		res = c13TcpOnce(cs, try)
+	}
+	return res
+}
+
+func c13TcpOnce(cs string, try int) string {
 	m := kv(cs)
 	proto, max, hold := m["proto"], atoi(m["max"]), m["hold"] == "1"
+	pingpong := m["hold"] == "2"
+	wave := m["hold"] == "3" // first segment: a held burst of k1 queries; then one query per segment, ping-pong
+	k1 := atoi(m["wave"])
+	if wave {
+		hold = true
+	}
 	fs := c13ParseFrames(m["fr"])
 	stream := c13Stream(fs)
 	var segs []int
@@ -138,7 +169,7 @@ func c13TcpRun(cs string) string {
 	}
 	up := c13t.up
 	delay := time.Duration(0)
-	if !hold {
+	if !hold && !pingpong {
 		delay = 3 * time.Millisecond
 	}
 	up.reset(hold, delay)
@@ -191,12 +222,60 @@ func c13TcpRun(cs string) string {
 		pace = 50 * time.Microsecond
 	}
 	pos := 0
+	stall := false
+	bounds := map[int]int{} // stream offset of a frame end -> number of frames complete there
+	{
+		o := 0
+		for i, f := range fs {
+			o += 2 + f.l
+			bounds[o] = i + 1
+		}
+	}
+	countKindNow := func(kind int) int {
+		f, _, _ := rd.frames()
+		n := 0
+		for _, b := range f {
+			if _, k := c13Kind(b); k == kind {
+				n++
+			}
+		}
+		return n
+	}
 	for i, s := range segs {
 		if _, err := conn.Write(stream[pos : pos+s]); err != nil {
 			break
 		}
 		pos += s
-		if i+1 < len(segs) {
+		if wave && i == 0 {
+			// wave 1: the surplus is REFUSED, the rest is held; then everything completes
+			surplus := k1 - max
+			if surplus < 0 {
+				surplus = 0
+			}
+			if !c13WaitFor(c13WaitD(), func() bool { return countKindNow(1) >= surplus }) {
+				stall = true
+			}
+			if !up.waitHeld(k1-surplus, c13WaitD()) {
+				stall = true
+			}
+			time.Sleep(2 * time.Millisecond)
+			up.setHold(false)
+			ids := up.heldIDs()
+			for j := len(ids) - 1; j >= 0; j-- {
+				up.release(ids[j])
+			}
+			if !c13WaitFor(c13WaitD(), func() bool { f, _, _ := rd.frames(); return len(f) >= k1 }) {
+				stall = true
+			}
+			time.Sleep(time.Duration(500*(1+10*try)) * time.Microsecond)
+			hold = false
+		} else if nfr, ok := bounds[pos]; ok && (pingpong || wave) {
+			// ping-pong: read the response before sending the next query
+			if !c13WaitFor(c13WaitD(), func() bool { f, _, _ := rd.frames(); return len(f) >= nfr }) {
+				stall = true
+			}
+			time.Sleep(time.Duration(200*(1+10*try)) * time.Microsecond)
+		} else if i+1 < len(segs) {
 			time.Sleep(pace)
 		}
 	}
@@ -210,17 +289,16 @@ func c13TcpRun(cs string) string {
 		}
 		return n
 	}
-	stall := false
 	if hold {
 		surplus := complete - max
 		if surplus < 0 {
 			surplus = 0
 		}
 		inflight := complete - surplus
-		if !c13WaitFor(c13Wait, func() bool { return countKind(1) >= surplus }) {
+		if !c13WaitFor(c13WaitD(), func() bool { return countKind(1) >= surplus }) {
 			stall = true
 		}
-		if !up.waitHeld(inflight, c13Wait) {
+		if !up.waitHeld(inflight, c13WaitD()) {
 			stall = true
 		}
 		// a little time for anything that should NOT happen (more queries reaching the upstream)
@@ -230,7 +308,7 @@ func c13TcpRun(cs string) string {
 			up.release(ids[i])
 		}
 	}
-	if !c13WaitFor(c13Wait, func() bool { f, _, _ := rd.frames(); return len(f) >= complete }) {
+	if !c13WaitFor(c13WaitD(), func() bool { f, _, _ := rd.frames(); return len(f) >= complete }) {
 		stall = true
 	}
 	time.Sleep(10 * time.Millisecond) // quiet period: surplus or duplicated responses would show up here
@@ -248,6 +326,7 @@ func c13TcpRun(cs string) string {
 	}
 	res := fmt.Sprintf("w=%s up=%s closed=%s", c13FmtW(ws, true), c13FmtInts(up.arrivedSorted()), b2s(eof))
 	if stall {
+		c13Stalled()
 		res += " stall=1"
 	}
 	return res
@@ -256,14 +335,21 @@ func c13TcpRun(cs string) string {
 func c13TcpGen(r *rand.Rand, thorough bool, emit func(c, cat string)) {
 	n := 16
 	if thorough {
-		n = 500
+		n = 300
 	}
-	mk := func(proto string, max int, hold bool, fs []c13frame, segs []int) string {
+	mk2 := func(proto string, max int, hold int, fs []c13frame, segs []int) string {
 		s := make([]string, len(segs))
 		for i, x := range segs {
 			s[i] = strconv.Itoa(x)
 		}
-		return fmt.Sprintf("proto=%s max=%d hold=%s fr=%s segs=%s", proto, max, b2s(hold), c13FrStr(fs), strings.Join(s, ","))
+		return fmt.Sprintf("proto=%s max=%d hold=%d fr=%s segs=%s", proto, max, hold, c13FrStr(fs), strings.Join(s, ","))
+	}
+	mk := func(proto string, max int, hold bool, fs []c13frame, segs []int) string {
+		h := 0
+		if hold {
+			h = 1
+		}
+		return mk2(proto, max, h, fs, segs)
 	}
 	for _, proto := range []string{"gnet", "tcp", "tls"} {
 		// fixed: byte-by-byte, cut inside the prefix, cut between prefix and body, two frames per segment
@@ -274,6 +360,45 @@ func c13TcpGen(r *rand.Rand, thorough bool, emit func(c, cat string)) {
 		emit(mk(proto, 100, false, fs, []int{2, 17, 2, 30, 2, 19, 2, 45}), proto+"-hdrbodycuts")
 		emit(mk(proto, 100, false, fs, []int{19 + 32, 21 + 47}), proto+"-aligned")
 		emit(mk(proto, 3, true, fs, []int{total}), proto+"-overlimit")
+		// ping-pong: more queries than the limit, one at a time: none REFUSED
+		pp := make([]c13frame, 9)
+		for i := range pp {
+			pp[i] = c13frame{17 + 2*(i%4) + 2, true}
+		}
+		ppSegs := func(fs []c13frame, split bool) []int {
+			var segs []int
+			for _, f := range fs {
+				if split && f.l > 4 {
+					c := 1 + r.Intn(3) // inside or right after the prefix
+					segs = append(segs, c, 2+f.l-c)
+				} else {
+					segs = append(segs, 2+f.l)
+				}
+			}
+			return segs
+		}
+		emit(mk2(proto, 3, 2, pp, ppSegs(pp, false)), proto+"-pingpong")
+		{
+			// two waves: 7 queries in a burst against a limit of 3 (3 held, 4 REFUSED), all complete, then 3 more
+			// one at a time: the counter must be back to zero, none of them may be REFUSED
+			w := make([]c13frame, 10)
+			for i := range w {
+				w[i] = c13frame{17 + 2*(i%3) + 2, true}
+			}
+			segs := []int{c13Total(w[:7])}
+			for _, f := range w[7:] {
+				segs = append(segs, 2+f.l)
+			}
+			emit(mk2(proto, 3, 3, w, segs)+" wave=7", proto+"-twowaves")
+		}
+		emit(mk2(proto, 3, 2, pp, ppSegs(pp, true)), proto+"-pingpong-split")
+		if thorough {
+			ppb := make([]c13frame, 130)
+			for i := range ppb {
+				ppb[i] = c13frame{17 + 2*(i%6) + 2, true}
+			}
+			emit(mk2(proto, 100, 2, ppb, ppSegs(ppb, true)), proto+"-pingpong-default")
+		}
 		// k > default limit, one burst: 100 in flight, the surplus REFUSED, none dropped
 		big := make([]c13frame, 130)
 		for i := range big {
